@@ -99,22 +99,55 @@ func (m *c15Model) canon() string {
 }
 
 // the cache is keyed the way the engine keys it: by the page's file offset (uint64)
-func c15Key(k int) uint64 { return uint64(k+1) * pageSize }
+func c15Off(k int) uint64 { return uint64(k+1) * pageSize }
 
-func c15KeyBack(k any) int { return int(k.(uint64)/pageSize) - 1 }
+// c15KeyMode: the Go type the keys are handed to the cache in. 0: uint64 file offsets (what the engine uses);
+// 1: int, 2: uint32, 3: int64, 4: string (what the repository's own tests use) - the cache takes keys of any type.
+var c15KeyMode int
+
+func c15Key(k int) any {
+	switch c15KeyMode {
+	case 1:
+		return int(c15Off(k))
+	case 2:
+		return uint32(c15Off(k))
+	case 3:
+		return int64(c15Off(k))
+	case 4:
+		return fmt.Sprint(c15Off(k))
+	}
+	return c15Off(k)
+}
+
+func c15KeyBack(k any) int {
+	var off uint64
+	switch x := k.(type) {
+	case uint64:
+		off = x
+	case int:
+		off = uint64(x)
+	case uint32:
+		off = uint64(x)
+	case int64:
+		off = uint64(x)
+	case string:
+		fmt.Sscan(x, &off)
+	}
+	return int(off/pageSize) - 1
+}
 
 // c15Node: a fresh page for key k. Odd keys are leaves linked to both neighbouring keys, even keys interior
 // pages whose cells and right-most pointer name the neighbouring keys.
 func c15Node(k int, dirty bool) *btreeNode {
-	n := &btreeNode{fileOffset: c15Key(k), dirty: dirty, isLeaf: k%2 == 1}
+	n := &btreeNode{fileOffset: c15Off(k), dirty: dirty, isLeaf: k%2 == 1}
 	if n.isLeaf {
-		n.hasLSib, n.lSibFileOffset = true, c15Key(k-1)
-		n.hasRSib, n.rSibFileOffset = true, c15Key(k+1)
+		n.hasLSib, n.lSibFileOffset = true, c15Off(k-1)
+		n.hasRSib, n.rSibFileOffset = true, c15Off(k+1)
 	} else {
 		if k > 0 {
-			n.appendInternalCell(uint32(k), c15Key(k-1))
+			n.appendInternalCell(uint32(k), c15Off(k-1))
 		}
-		n.setRightMostKey(c15Key(k + 1))
+		n.setRightMostKey(c15Off(k + 1))
 	}
 	n.dirty = dirty
 	return n
@@ -273,17 +306,21 @@ func c15Replay(capacity int, path []c15Op) (*LRUCache, *c15Model, string) {
 var _ = list.New
 
 func runC15(env *lib.Env, rep *lib.Report) {
-	type scope struct{ cap, keys int }
-	scopes := []scope{{1, 2}, {1, 3}, {2, 3}, {2, 4}, {3, 4}, {3, 5}, {4, 5}}
+	type scope struct{ cap, keys, mode int }
+	scopes := []scope{{1, 2, 0}, {1, 3, 0}, {2, 3, 0}, {2, 4, 0}, {3, 4, 0}, {3, 5, 0}, {4, 5, 0},
+		// the same search with the keys handed over as int / uint32 / int64 / string
+		{2, 3, 1}, {2, 3, 2}, {2, 3, 3}, {2, 3, 4}, {3, 4, 1}, {1, 2, 4}}
 	if env.Thorough() {
-		scopes = append(scopes, scope{4, 6}, scope{5, 6}, scope{5, 7}, scope{6, 7})
+		scopes = append(scopes, scope{4, 6, 0}, scope{5, 6, 0}, scope{5, 7, 0}, scope{6, 7, 0}, scope{3, 5, 1}, scope{3, 4, 2}, scope{3, 4, 3}, scope{3, 4, 4})
 	}
+	rep.Bounds["key types"] = "uint64 file offsets (every scope); int, uint32, int64, string (small scopes)"
 	rep.Bounds["scopes(capacity,keys)"] = fmt.Sprint(scopes)
 	rep.Bounds["search"] = "breadth-first to fixpoint over canonical states (recency-ordered (key,dirty) list)"
 	if env.Replay != "" {
 		rf := lib.LoadReplay(env.Replay)
 		var sc scope
-		fmt.Sscanf(rf.Params, "cap=%d keys=%d", &sc.cap, &sc.keys)
+		fmt.Sscanf(rf.Params, "cap=%d keys=%d mode=%d", &sc.cap, &sc.keys, &sc.mode)
+		c15KeyMode = sc.mode
 		var path []c15Op
 		for _, s := range rf.Trace {
 			var o c15Op
@@ -306,6 +343,7 @@ func runC15(env *lib.Env, rep *lib.Report) {
 		if si%env.NShards != env.Shard {
 			continue
 		}
+		c15KeyMode = sc.mode
 		seen := map[string][]c15Op{"": nil}
 		frontier := [][]c15Op{nil}
 		var states, trans, lookahead int64 = 1, 0, 0
@@ -347,7 +385,7 @@ func runC15(env *lib.Env, rep *lib.Report) {
 							tr[i] = o.String()
 						}
 						rep.AddFailure(&lib.Failure{Kind: "lru-model-mismatch", Detail: fmt.Sprintf("capacity %d, keys %d, after %v: %s", sc.cap, sc.keys, np, p),
-							Trace: tr, Params: fmt.Sprintf("cap=%d keys=%d", sc.cap, sc.keys)})
+							Trace: tr, Params: fmt.Sprintf("cap=%d keys=%d mode=%d", sc.cap, sc.keys, sc.mode)})
 						continue // do not explore beyond a broken state
 					}
 					if kind >= 6 {
@@ -381,7 +419,7 @@ func runC15(env *lib.Env, rep *lib.Report) {
 											tr[i] = o.String()
 										}
 										rep.AddFailure(&lib.Failure{Kind: "lru-model-mismatch", Detail: fmt.Sprintf("capacity %d, keys %d, after %v (a longer path into a known recency/dirty state): %s", sc.cap, sc.keys, full, p2),
-											Trace: tr, Params: fmt.Sprintf("cap=%d keys=%d", sc.cap, sc.keys)})
+											Trace: tr, Params: fmt.Sprintf("cap=%d keys=%d mode=%d", sc.cap, sc.keys, sc.mode)})
 										continue
 									}
 									if depth > 1 {
@@ -428,6 +466,7 @@ func runC15(env *lib.Env, rep *lib.Report) {
 	// wide caches: for capacities up to several hundred, every position of the single clean entry among
 	// dirty ones (and of two clean entries), then an insertion: it must be accepted and must evict exactly the
 	// least recently used clean entry, however far from the cold end that is; with no clean entry it is refused.
+	c15KeyMode = 0
 	wide := []int{8, 16, 63, 64, 65, 66, 100, 129, 257}
 	if env.Thorough() {
 		wide = append(wide, 512, 1000)
